@@ -184,7 +184,7 @@ fn coq_state(name: &str, version: &str, raw: &Raw, ids: &mut Ids) -> String {
     let lm = a(slot_addr(raw, "minter"), ids);
     let ow = a(slot_owner(raw), ids);
     format!(
-        "(mkState {} {} (mkSlots {} {} {} {} {} {} {}))",
+        "(mkState {} {} (mkSlots {} {} {} {} {} {} {} {}))",
         coq_str(name),
         coq_str(version),
         t("last_discount_time"),
@@ -196,7 +196,8 @@ fn coq_state(name: &str, version: &str, raw: &Raw, ids: &mut Ids) -> String {
         match slot_status(raw) {
             Some((a, b, c)) => format!("(Some ({}, {}, {}))", coq_bool(a), coq_bool(b), coq_bool(c)),
             None => "None".to_string(),
-        }
+        },
+        coq_opt_n(slot_mintable(raw))
     )
 }
 
@@ -285,6 +286,7 @@ fn run_mig(w: &mut World, case: &Case, code_version: &str) -> Outcome {
         let older = |t: (u64, u64, u64)| stored.map_or(false, |s| s < t);
         for k in &changed_keys {
             let allowed = match k.as_str() {
+                "mintable_num_tokens" => false, // supply moves by mint / burn only
                 "status" => false, // what governance set is never a migration's to change
                 "contract_info" => c.kind() != Kind::Factory,
                 "last_discount_time" => c.kind() == Kind::Vending && older((3, 9, 0)),
@@ -1091,7 +1093,7 @@ fn gen_cases(a: &Args, code: &str) -> Vec<Case> {
                         };
                         // every version literal of the migrate sources (+-1) for every triple; the
                         // whole boundary list and a grid sample for "blocked" and "all flags"
-                        let wide = c.kind() == Kind::Factory || gov == 2 || gov == 7;
+                        let wide = c.kind() == Kind::Factory || gov == 2;
                         for ver in &bounds {
                             if wide || harvested.contains(ver) {
                                 push(own, ver, MsgKind::Nothing);
@@ -1124,7 +1126,7 @@ fn gen_cases(a: &Args, code: &str) -> Vec<Case> {
                     if opt == 2 && !has_empty {
                         continue;
                     }
-                    for ostage in [1u8, 0, 2] {
+                    for ostage in [1u8, 2] {
                         for name in documented_names(c) {
                             for ver in &bounds {
                                 if ostage == 1 || harvested.contains(ver) {
@@ -1153,6 +1155,46 @@ fn gen_cases(a: &Args, code: &str) -> Vec<Case> {
                         if is_minter(c) && ostage == 1 {
                             for ver in harvested.iter() {
                                 cases.push(Case::Mig { contract: c, stage: ostage, name: own.to_string(), version: ver.clone(), msg: MsgKind::Nothing, legacy_minter: false, strip_flags: false, clock: None, gov: 6, opt });
+                            }
+                        }
+                    }
+                }
+            }
+            // END states (sale closed by BurnRemaining, sold out, purged, past its end time, a
+            // discount in force, ledgers partly filled, collections frozen / burnt, whitelists
+            // ended / frozen, splits with a remainder and no admin, frozen factories with
+            // duplicate code ids): oldest accepted, below and at every version literal of the
+            // migrate sources, current-1, current, and refused pairs
+            if si == 0 {
+                let sv = plain_triple(code).unwrap();
+                let mut vers: Vec<String> = harvested.clone();
+                for extra in [
+                    if c == Contract::Sg721Updatable { "0.16.0".to_string() } else { "0.1.0".to_string() },
+                    if sv.2 > 0 { format!("{}.{}.{}", sv.0, sv.1, sv.2 - 1) } else { format!("{}.{}.99", sv.0, sv.1.saturating_sub(1)) },
+                    code.to_string(),
+                    format!("{}.{}.{}", sv.0, sv.1, sv.2 + 1),
+                    "3.16".to_string(),
+                ] {
+                    if !vers.contains(&extra) {
+                        vers.push(extra);
+                    }
+                }
+                for estage in end_stages(c) {
+                    for opt in [0u8, 1, 2] {
+                        if opt == 2 && !matches!(c, Contract::OpenEditionMinter | Contract::OpenEditionMinterWlFlex | Contract::OpenEditionMinterMerkleWl) {
+                            continue;
+                        }
+                        for name in documented_names(c) {
+                            for ver in &vers {
+                                let legacy = c == Contract::Sg721Updatable && plain_triple(ver).map_or(false, |t| t < (3, 0, 0));
+                                let gov = if is_minter(c) && estage == 3 && opt == 0 { 2 } else { 0 };
+                                cases.push(Case::Mig { contract: c, stage: estage, name: name.to_string(), version: ver.clone(), msg: MsgKind::Nothing, legacy_minter: legacy, strip_flags: false, clock: None, gov, opt });
+                            }
+                        }
+                        cases.push(Case::Mig { contract: c, stage: estage, name: "crates.io:sg-base-minter".to_string(), version: "2.4.0".to_string(), msg: MsgKind::Nothing, legacy_minter: false, strip_flags: false, clock: None, gov: 0, opt });
+                        if c.kind() == Kind::Factory {
+                            for ver in ["2.4.0", code] {
+                                cases.push(Case::Mig { contract: c, stage: estage, name: own.to_string(), version: ver.to_string(), msg: MsgKind::Valid, legacy_minter: false, strip_flags: false, clock: None, gov: 0, opt });
                             }
                         }
                     }
@@ -1190,7 +1232,7 @@ fn gen_cases(a: &Args, code: &str) -> Vec<Case> {
     let nrand = if a.thorough() { 20_000 } else { 600 };
     for _ in 0..nrand {
         let c = *rng.pick(&ALL);
-        let stage = rng.below(3) as u8;
+        let stage = if rng.chance(1, 3) { *rng.pick(&end_stages(c)) } else { rng.below(3) as u8 };
         let name = if rng.chance(3, 5) { rng.pick(&documented_names(c)).to_string() } else { rng.pick(&NAMES).to_string() };
         let version = match rng.below(10) {
             0 => rng.pick(&MALFORMED).to_string(),
@@ -1217,7 +1259,13 @@ fn gen_cases(a: &Args, code: &str) -> Vec<Case> {
 /// developer aid: C20_DEBUG=1 prints which setups / queries do not work
 fn debug_setups() {
     for c in ALL {
-        for (stage, opt) in [(0u8, 0u8), (1, 0), (2, 0), (0, 1), (1, 1), (2, 1), (0, 2), (1, 2), (2, 2)] {
+        let mut combos: Vec<(u8, u8)> = vec![(0u8, 0u8), (1, 0), (2, 0), (0, 1), (1, 1), (2, 1), (0, 2), (1, 2), (2, 2)];
+        for st in end_stages(c) {
+            for o in 0..3u8 {
+                combos.push((st, o));
+            }
+        }
+        for (stage, opt) in combos {
             match setup_opt(c, stage, opt) {
                 Err(e) => println!("SETUP FAIL {:?} stage {} opt {}: {}", c, stage, opt, e),
                 Ok(s) => {
